@@ -31,6 +31,14 @@ def _rule_vocabulary():
     return _RULE_VOCAB
 
 
+_ACTIVE = []
+
+
+def active_scanner():
+    """the scanner whose run() is in progress (translation hooks use it to look at the locals of the function being read)"""
+    return _ACTIVE[-1] if _ACTIVE else None
+
+
 SUM = sp.Function("SUM")            # SUM(term(k_), lo, hi): sum of term over k_ in [lo, hi)
 K_ = sp.Symbol("k_", integer=True)
 SIZE = sp.Function("size")
@@ -122,6 +130,7 @@ class Scanner:
         self.ptr_alias = {}        # local pointer decl -> (array text, offset): T* p = &a[e]
         self.ref_alias = {}        # local reference decl -> (base, idx, path): T& r = a[e] / obj.field
         self.track_all = False     # follow multiply-written scalar locals everywhere (always done inside inlined helpers)
+        self.iter_alias = {}       # iterator local walking a container in a counted loop -> (base, idx tuple): *it is base[idx]
         self.cur = {}              # scalar local written more than once -> (current value | None, guard depth, loop depth at its declaration)
         self.inline_value = {}     # call node id -> value of an inlined helper call
         self.inlined = []          # (call node, callee name) of the helper calls that were looked into
@@ -208,9 +217,17 @@ class Scanner:
             # functor call (e.g. a random distribution): an uninterpreted, fresh value per evaluation site
             return sp.Symbol("%s()@%d" % (A.show(n["args"][0]).replace(" ", ""), n["id"]), real=True)
         if k == "CXXOperatorCallExpr" and n.get("op") == "*" and len(n.get("args", [])) == 1:
+            d_ = A.declref(n["args"][0])
+            if d_ is not None and d_.get("decl") in self.iter_alias:
+                b_, i_ = self.iter_alias[d_["decl"]]
+                return sp.Indexed(sp.IndexedBase(b_), *i_)
             return sp.Symbol("*" + A.show(n["args"][0]), real=True)
         if k == "UnaryOperator" and n["op"] == "*":
             inner = A.strip(n["c"][0])
+            d_ = A.declref(inner)
+            if d_ is not None and d_.get("decl") in self.iter_alias:
+                b_, i_ = self.iter_alias[d_["decl"]]
+                return sp.Indexed(sp.IndexedBase(b_), *i_)
             return sp.Symbol("*" + A.show(inner), real=True)
         if k == "CallExpr" and n.get("callee") in ("std::inner_product", "std::accumulate") and len(n.get("args", [])) in (3, 4):
             r = self._sum_of_algorithm(n)
@@ -350,6 +367,12 @@ class Scanner:
             base, idx = self._subscript_chain(n)
             if base is not None:
                 return base, tuple(idx), path, n
+        if (n["k"] == "UnaryOperator" and n["op"] == "*") or (n["k"] == "CXXOperatorCallExpr" and n.get("op") == "*" and len(n.get("args", [])) == 1):
+            inner_ = n["c"][0] if n["k"] == "UnaryOperator" else n["args"][0]
+            d_ = A.declref(inner_)
+            if d_ is not None and d_.get("decl") in self.iter_alias:
+                b_, i_ = self.iter_alias[d_["decl"]]
+                return b_, tuple(i_), path, n
         if n["k"] == "UnaryOperator" and n["op"] == "*":
             return A.show(A.strip(n["c"][0])).replace(" ", ""), (sp.Integer(0),), path, n
         if n["k"] == "DeclRefExpr" and n["decl"] in self.range_alias:
@@ -371,6 +394,13 @@ class Scanner:
             if skip is not None and x is skip:
                 continue
             k = x["k"]
+            if ((k == "UnaryOperator" and x.get("op") == "*") or (k == "CXXOperatorCallExpr" and x.get("op") == "*" and len(x.get("args", [])) == 1)):
+                d_ = A.declref(x["c"][0] if k == "UnaryOperator" else x["args"][0])
+                if d_ is not None and d_.get("decl") in self.iter_alias:
+                    b_, i_ = self.iter_alias[d_["decl"]]
+                    g, l = self._ctx()
+                    self.accesses.append(Access("load", b_, tuple(i_), "", x, x["line"], g, l))
+                    continue
             if k == "DeclRefExpr" and x.get("decl") in self.ref_alias:
                 b_, i_, p_ = self.ref_alias[x["decl"]]
                 g, l = self._ctx()
@@ -656,6 +686,31 @@ class Scanner:
                                                 v, d["init"], None))
         elif k == "ForStmt":
             h = A.for_header(s)
+            ih = self._iter_for(s) if h is None else None
+            if ih is not None:
+                name = ih["name"]
+                sym = sp.Symbol(name, integer=True)
+                if any(L.name == name for L in self.loops):
+                    sym = sp.Symbol("%s_%d" % (name, ih["decl"]), integer=True)
+                self.locals[ih["decl"]] = ih["var"]
+                el = ih["elem"].subs(K_, sym)
+                self.iter_alias[ih["decl"]] = (str(el.base), tuple(el.indices))
+                self._loads(ih["hi_node"])
+                self.loops.append(Loop(name, ih["decl"], sym, sp.Integer(0), ih["hi"], "<", 1, s))
+                L_ = self.loops[-1]
+                self._parallel_iterators(L_, s.get("body"))
+                for it_decl, cont in self._par_iters.get(id(L_), {}).items():
+                    c2 = cont.subs(K_, sym)
+                    self.iter_alias[it_decl] = (str(c2.base), tuple(c2.indices))
+                mark = (len(self.accesses), len(self.calls))
+                body = s.get("body")
+                if self._par_iters.get(id(L_)) and body is not None and body.get("k") == "CompoundStmt":
+                    self._compound(body["c"][:-1])       # the trailing ++other is the loop's own bookkeeping
+                else:
+                    self.stmt(body)
+                self.loops.pop()
+                self._accumulators(L_, mark)
+                return
             if h is None:
                 self.noncanonical_loops.append(s)
                 if s.get("init"):
@@ -789,6 +844,8 @@ class Scanner:
                 return None
             return sp.Indexed(sp.IndexedBase(base), *(list(idx) + [K_])), SIZE(sp.Indexed(sp.IndexedBase(base), *idx))
         nm = A.this_field(o) or (A.declref(o) or {}).get("name")
+        if nm is None and o.get("k") == "MemberExpr":
+            nm = A.show(o).replace(" ", "").replace("->", ".")        # a container member of another object: rhs._data
         if nm is None:
             return None
         return sp.Indexed(sp.IndexedBase(nm), K_), SIZE(sp.Symbol(nm, real=True))
@@ -862,6 +919,55 @@ class Scanner:
                     continue
                 val = before[0].value + SUM(term.subs(L.sym, K_), L.lo, L.hi)
             self.tr.bind(d["decl"], val)
+
+    def _iter_for(self, s):
+        """for (auto it = X.begin(); it != X.end() | X.begin()+n | <local bound to one of these>; ++it): a counted loop over X"""
+        init, cond, inc = s.get("init"), s.get("cond"), s.get("inc")
+        if not init or not cond or not inc or init.get("k") != "DeclStmt" or len(init.get("decls", [])) != 1 or "init" not in init["decls"][0]:
+            return None
+        var = init["decls"][0]
+        ce = self._container_elem(var["init"], "begin")
+        if ce is None:
+            return None
+        c = A.strip(cond)
+        ops = c.get("args") if c.get("k") == "CXXOperatorCallExpr" else (c.get("c") if c.get("k") == "BinaryOperator" else None)
+        if not ops or c.get("op") != "!=" or len(ops) != 2:
+            return None
+        l = A.declref(ops[0])
+        if l is None or l.get("decl") != var["decl"]:
+            return None
+        e = A.strip(ops[1])
+        ed = A.declref(e)
+        hops = 0
+        while ed is not None and ed.get("decl") in self.locals and "init" in self.locals[ed["decl"]] and self.assigned.get(ed["decl"], 0) == 0 and hops < 3:
+            e = A.strip(self.locals[ed["decl"]]["init"])
+            while e.get("k") in ("CXXConstructExpr", "MaterializeTemporaryExpr", "CXXBindTemporaryExpr", "ExprWithCleanups") and len(e.get("args", e.get("c", []))) == 1:
+                e = A.strip((e.get("args") or e.get("c"))[0])
+            ed = A.declref(e)
+            hops += 1
+        hi = None
+        hi_node = e
+        end = self._container_elem(e, "end")
+        if end is not None and end[0] == ce[0]:
+            hi = ce[1]
+        else:
+            pl = e.get("args") if e.get("k") == "CXXOperatorCallExpr" else (e.get("c") if e.get("k") == "BinaryOperator" else None)
+            if pl and e.get("op") == "+" and len(pl) == 2:
+                b0 = self._container_elem(pl[0], "begin")
+                if b0 is not None and b0[0] == ce[0]:
+                    hi = self._try(pl[1])
+                    hi_node = pl[1]
+        if hi is None:
+            return None
+        i = A.strip(inc, casts=False)
+        tgt = None
+        if i.get("k") == "UnaryOperator" and i.get("op") == "++":
+            tgt = A.declref(i["c"][0])
+        if i.get("k") == "CXXOperatorCallExpr" and i.get("op") == "++" and i.get("args"):
+            tgt = A.declref(i["args"][0])
+        if tgt is None or tgt.get("decl") != var["decl"]:
+            return None
+        return dict(decl=var["decl"], name=var["name"], var=var, elem=ce[0], hi=hi, hi_node=hi_node)
 
     def _parallel_iterators(self, L, body):
         """an iterator local `auto w = Y.begin();` advanced by `++w;` as the last statement of a range-for body walks Y in step with
@@ -953,10 +1059,12 @@ class Scanner:
             src = sp.expand(sptr + (sp.expand(v.indices[0]) - L.sym) + L.lo)
             c = Call("std::copy_n", L.node, [src, length, dst], [None, None, None], None, st.line, g, l, "std::copy_n(loop)")
             c.synth = True
+            st.bulk = c
             self.calls.append(c)
         elif not v.has(L.sym):
             c = Call("std::fill_n", L.node, [dst, length, v], [None, None, None], None, st.line, g, l, "std::fill_n(loop)")
             c.synth = True
+            st.bulk = c
             self.calls.append(c)
 
     def _eq_const(self, cond):
@@ -1110,6 +1218,13 @@ class Scanner:
         return dict(name=d["name"], decl=d["decl"], lo=lo, hi=cond["c"][1], cmp=cond["op"], body=body["c"][:-1])
 
     def run(self):
+        _ACTIVE.append(self)
+        try:
+            return self._run()
+        finally:
+            _ACTIVE.pop()
+
+    def _run(self):
         for i in self.fn.get("inits", []):
             if isinstance(i.get("expr"), dict):
                 self._loads(i["expr"])
